@@ -265,6 +265,15 @@ func runEffects(o *opts) {
 			if d5 {
 				t.Info["directory_input_or_skip_cache_directory"] = true
 			}
+			// what the user DEFINED as plain inputs / skip-cache outputs
+			for _, a := range rec.In {
+				t.Prot = append(t.Prot, a.Path)
+			}
+			for _, a := range rec.Out {
+				if a.Skip {
+					t.Prot = append(t.Prot, a.Path)
+				}
+			}
 			all = append(all, t)
 		}
 		cp := rr.chance(1, 2)
